@@ -1169,3 +1169,276 @@ func globalAddressUses(P *Program) map[*ssa.Global]bool {
 	}
 	return out
 }
+
+// ---------- LK-SHARED
+
+// sharedWrites finds writes through references obtained from a shared
+// (mutex-guarded, package-level) map: a value looked up there is shared with
+// every other goroutine that looks it up, so its slices, maps and pointees
+// must not be written once it has left the critical section (or inside it,
+// under a read lock). Taint runs from the lookups through copies, fields,
+// slices, locals, results and parameters of module functions.
+func sharedWrites(P *Program, fns []*ssa.Function, isSource func(*ssa.Lookup) bool) []ssa.Instruction {
+	holdsRef := func(t types.Type) bool {
+		var rec func(t types.Type, d int) bool
+		rec = func(t types.Type, d int) bool {
+			if d > 4 {
+				return true
+			}
+			switch u := t.Underlying().(type) {
+			case *types.Basic:
+				return u.Kind() == types.UnsafePointer
+			case *types.Struct:
+				for i := 0; i < u.NumFields(); i++ {
+					if rec(u.Field(i).Type(), d+1) {
+						return true
+					}
+				}
+				return false
+			case *types.Array:
+				return rec(u.Elem(), d+1)
+			case *types.Tuple:
+				for i := 0; i < u.Len(); i++ {
+					if rec(u.At(i).Type(), d+1) {
+						return true
+					}
+				}
+				return false
+			case *types.Signature:
+				return false
+			case *types.Interface:
+				return false // an interface value is replaced, not written through, by module code
+			}
+			return true // slice, map, pointer, chan
+		}
+		return rec(t, 0)
+	}
+	mutators := map[string]bool{"slices.Insert": true, "slices.Delete": true, "slices.DeleteFunc": true, "slices.Replace": true, "slices.Reverse": true, "slices.Sort": true, "slices.SortFunc": true, "slices.SortStableFunc": true, "slices.Compact": true, "slices.CompactFunc": true, "sort.Slice": true, "sort.SliceStable": true, "sort.Sort": true, "sort.Stable": true, "sort.Strings": true, "sort.Ints": true}
+	taintedParam := map[*ssa.Parameter]bool{}
+	taintedResult := map[*ssa.Function]map[int]bool{}
+	var sinks []ssa.Instruction
+	seenSink := map[ssa.Instruction]bool{}
+	inSet := map[*ssa.Function]bool{}
+	for _, f := range fns {
+		inSet[f] = true
+	}
+	for iter := 0; iter < 8; iter++ {
+		changed := false
+		for _, fn := range fns {
+			tainted := map[ssa.Value]bool{}
+			var work []ssa.Value
+			mark := func(v ssa.Value) {
+				if v != nil && !tainted[v] && holdsRef(v.Type()) {
+					tainted[v] = true
+					work = append(work, v)
+				}
+			}
+			for _, p := range fn.Params {
+				if taintedParam[p] {
+					mark(p)
+				}
+			}
+			for _, b := range fn.Blocks {
+				for _, in := range b.Instrs {
+					switch x := in.(type) {
+					case *ssa.Lookup:
+						if isSource(x) {
+							mark(x)
+						}
+					case *ssa.Call:
+						if g := x.Call.StaticCallee(); g != nil && len(taintedResult[g]) > 0 {
+							mark(x)
+						}
+					}
+				}
+			}
+			sink := func(in ssa.Instruction) {
+				if !seenSink[in] {
+					seenSink[in] = true
+					sinks = append(sinks, in)
+				}
+			}
+			holder := map[*ssa.Alloc]bool{}
+			for len(work) > 0 {
+				v := work[len(work)-1]
+				work = work[:len(work)-1]
+				for _, r := range referrersOf(v) {
+					switch x := r.(type) {
+					case *ssa.Extract:
+						if call, ok := x.Tuple.(*ssa.Call); ok {
+							if g := call.Call.StaticCallee(); g != nil && inSet[g] && !taintedResult[g][x.Index] {
+								continue
+							}
+						}
+						mark(x)
+					case *ssa.Phi, *ssa.ChangeType, *ssa.Slice, *ssa.Field, *ssa.MakeInterface, *ssa.Convert:
+						mark(x.(ssa.Value))
+					case *ssa.FieldAddr:
+						// the address of a part of what a shared pointer points to
+						if x.X == v {
+							mark(x)
+							for _, rr := range referrersOf(x) {
+								if st, ok := rr.(*ssa.Store); ok && st.Addr == ssa.Value(x) {
+									sink(rr)
+								}
+							}
+						}
+					case *ssa.IndexAddr:
+						if x.X == v {
+							for _, rr := range referrersOf(x) {
+								switch y := rr.(type) {
+								case *ssa.Store:
+									if y.Addr == ssa.Value(x) {
+										sink(rr)
+									}
+								case *ssa.FieldAddr:
+									for _, r3 := range referrersOf(y) {
+										if st, ok := r3.(*ssa.Store); ok && st.Addr == ssa.Value(y) {
+											sink(r3)
+										}
+									}
+									mark(y)
+								case *ssa.UnOp:
+									if y.Op == token.MUL {
+										mark(y)
+									}
+								}
+							}
+						}
+					case *ssa.UnOp:
+						if x.Op == token.MUL {
+							mark(x)
+						}
+					case *ssa.MapUpdate:
+						if x.Map == v {
+							sink(r)
+						}
+					case *ssa.Store:
+						if x.Val == v {
+							// a local copy: what is read back out of it is shared again
+							root, _ := rootOfAddr(x.Addr)
+							if a, ok := root.(*ssa.Alloc); ok && !holder[a] {
+								holder[a] = true
+								var walkAddr func(addr ssa.Value, d int)
+								walkAddr = func(addr ssa.Value, d int) {
+									if d > 5 {
+										return
+									}
+									for _, rr := range referrersOf(addr) {
+										switch y := rr.(type) {
+										case *ssa.UnOp:
+											if y.Op == token.MUL {
+												mark(y)
+											}
+										case *ssa.FieldAddr:
+											walkAddr(y, d+1)
+										case *ssa.IndexAddr:
+											walkAddr(y, d+1)
+										}
+									}
+								}
+								walkAddr(a, 0)
+							}
+						}
+					case *ssa.Return:
+						for i, rv := range x.Results {
+							if rv == v {
+								if taintedResult[fn] == nil {
+									taintedResult[fn] = map[int]bool{}
+								}
+								if !taintedResult[fn][i] {
+									taintedResult[fn][i] = true
+									changed = true
+								}
+							}
+						}
+					case ssa.CallInstruction:
+						cc := x.Common()
+						if bi, ok := cc.Value.(*ssa.Builtin); ok {
+							switch bi.Name() {
+							case "append", "copy", "clear", "delete":
+								if len(cc.Args) > 0 && cc.Args[0] == v {
+									sink(r)
+								}
+							}
+							continue
+						}
+						g := cc.StaticCallee()
+						if g == nil {
+							continue
+						}
+						if mutators[qualName(g)] || g.Origin() != nil && mutators[qualName(g.Origin())] {
+							if len(cc.Args) > 0 && cc.Args[0] == v {
+								sink(r)
+							}
+							continue
+						}
+						if inSet[g] {
+							for i, a := range cc.Args {
+								if a == v && i < len(g.Params) && !taintedParam[g.Params[i]] {
+									taintedParam[g.Params[i]] = true
+									changed = true
+								}
+							}
+						}
+					}
+				}
+			}
+		}
+		if !changed {
+			break
+		}
+	}
+	return sinks
+}
+
+func ruleLKShared(c *Ctx) {
+	c.Rule("LK-SHARED", "what is looked up in a guarded package-level map is shared: its slices, maps and pointees are never written through by the code that obtained it", 0)
+	P := c.P
+	isSrc := func(l *ssa.Lookup) bool {
+		ld, ok := l.X.(*ssa.UnOp)
+		if !ok || ld.Op != token.MUL {
+			return false
+		}
+		g, ok := ld.X.(*ssa.Global)
+		if !ok {
+			return false
+		}
+		_, guarded := guardedBy[globalKey(g)]
+		return guarded
+	}
+	n := 0
+	for _, in := range sharedWrites(P, P.ModuleFuncs(), isSrc) {
+		n++
+		c.Bad(fmt.Sprintf("%s/shared-write#%d", fnKey(in.Parent()), n), P.pos(in.Pos()), fmt.Sprintf("%s writes through a reference that came out of a guarded package-level map (a registered schema, say): every goroutine that looks the entry up shares that storage, the write is unsynchronised, and what others get afterwards is changed for good", strings.TrimSpace(in.String())))
+	}
+	if n == 0 {
+		c.OK("module/no-shared-write", "-", "no write through a value looked up in a guarded map")
+	}
+	fx := buildFixture(`package fx
+type S struct{ T string; U []S }
+var reg = map[int]S{}
+func get(k int) (S, bool) { s, ok := reg[k]; return s, ok }
+func swap(u []S) { u[0], u[1] = u[1], u[0] }
+func bad(k int) S { s, _ := get(k); swap(s.U); return s }
+func good(k int) S { s, _ := get(k); s.T = "x"; return S{T: "w", U: []S{s}} }
+`)
+	if fx == nil {
+		c.Unk("fixture/LK-SHARED", "-", "fixture package did not build")
+		return
+	}
+	var ffns []*ssa.Function
+	for _, m := range fx.Members {
+		if f, ok := m.(*ssa.Function); ok {
+			ffns = append(ffns, f)
+		}
+	}
+	hits := map[string]bool{}
+	for _, in := range sharedWrites(P, ffns, func(l *ssa.Lookup) bool { return true }) {
+		hits[in.Parent().Name()] = true
+	}
+	o := c.ob(Discharged, "fixture/LK-SHARED", "-", fmt.Sprintf("positive fixture: writes found in %v (expected exactly swap)", hits), false)
+	if !(len(hits) == 1 && hits["swap"]) {
+		o.Verdict, o.VerdictS = Undecided, "undecided"
+	}
+}
